@@ -605,12 +605,10 @@ func (t *Truncate) makeString(sb *strings.Builder) {
 	}
 	t.Source.makeString(sb)
 	if t.MinSize != nil {
-		p := int64(*t.MinSize)
-		addInt64IfNotEmpty("MINSIZE", &p, sb)
+		sb.WriteString(fmt.Sprintf(" MINSIZE %d", uint64(*t.MinSize)))
 	}
 	if t.MaxSize != nil {
-		p := int64(*t.MaxSize)
-		addInt64IfNotEmpty("MAXSIZE", &p, sb)
+		sb.WriteString(fmt.Sprintf(" MAXSIZE %d", uint64(*t.MaxSize)))
 	}
 
 	if t.Before != nil {
